@@ -183,7 +183,7 @@ fn configs(prop: &str, thorough: bool) -> Vec<(Cfg, Option<usize>)> {
                 // one subkey holding both an allowance and permissions: mixed lists can succeed
                 let mut c = Cfg::base("C07/subkeys/one-subkey-with-both", "C07", Kind::Subkeys);
                 c.hmax = H0 + 1;
-                c.actors = vec!["A1", "A2", "S1", "S2", "X", "proxy", "pre:A1", "ext:A1"];
+                c.actors = vec!["A1", "A2", "S1", "S2", "X", "proxy", "pre:A1"];
                 c.init_admins = vec![A1];
                 c.admin_callers = vec![A1];
                 c.admin_lists = vec![vec![A1], vec![A1, 5]];
@@ -197,7 +197,7 @@ fn configs(prop: &str, thorough: bool) -> Vec<(Cfg, Option<usize>)> {
                 c.perm_callers = vec![A1, S1];
                 // every flag set (incl. the partial combinations) against every staking / distribution kind
                 c.perm_targets = vec![(S1, all16.clone())];
-                c.exec_callers = vec![A1, S1, X, 5, 6, 7];
+                c.exec_callers = vec![A1, S1, X, 5, 6];
                 c.exec_lists = lists.clone();
                 c.exec_funds = vec![vec![], vec![(1, Amt(2))]];
                 out.push((c, None));
